@@ -194,6 +194,24 @@ func hasViolation(vs []sim.Violation, oracle, key string) *sim.Violation {
 			return &vs[i]
 		}
 	}
+	// race reports name the two innermost jet functions; which frame of a racing call chain is
+	// innermost can differ between two reports of the same race (dumpAll vs VarMap.SortedKeys
+	// called from it). For replay/shrink purposes two race keys that share a function are the same finding.
+	if oracle == "race" && strings.HasPrefix(key, "race:") {
+		want := strings.Split(strings.TrimPrefix(key, "race:"), "~")
+		for i := range vs {
+			if vs[i].Oracle != "race" || !strings.HasPrefix(vs[i].Key, "race:") {
+				continue
+			}
+			for _, g := range strings.Split(strings.TrimPrefix(vs[i].Key, "race:"), "~") {
+				for _, w := range want {
+					if g == w && g != "" {
+						return &vs[i]
+					}
+				}
+			}
+		}
+	}
 	return nil
 }
 
@@ -217,6 +235,7 @@ type shrinker struct {
 	best     []uint64
 	bestRes  *sim.Result
 	bestV    sim.Violation
+	lastSeen string
 }
 
 func (s *shrinker) test(c []uint64) bool {
@@ -226,10 +245,18 @@ func (s *shrinker) test(c []uint64) bool {
 	s.tries++
 	vs, res, err := s.r.evalTape(s.w, c, false)
 	if err != nil {
+		s.lastSeen = "error: " + err.Error()
 		return false
 	}
 	v := hasViolation(vs, s.oracle, s.key)
 	if v == nil {
+		s.lastSeen = "clean"
+		if len(vs) > 0 {
+			s.lastSeen = ""
+			for _, x := range vs {
+				s.lastSeen += x.Oracle + "/" + x.Key + " "
+			}
+		}
 		return false
 	}
 	if res != nil && len(res.Tape) <= len(c) {
@@ -566,15 +593,25 @@ func (r *runner) confirmAndMinimise(c *candidate, tier string) (string, *replayF
 	}
 	if c.v.Oracle == "liveness" {
 		sh.budget = 8 // every replay of a hang costs a full watchdog period
+	} else if c.tape == nil {
+		// the worker dies on every failing candidate and must be restarted
+		sh.budget, sh.deadline = 160, time.Now().Add(45*time.Second)
 	}
-	// the un-shrunk tape must reproduce first (same process family, fresh process)
-	sh.budget++
-	if !sh.test(tape) {
-		// retry once: distinguishes flakiness from a one-off
+	// the un-shrunk tape must reproduce first (fresh process). The schedule is a function of the
+	// tape; whether ThreadSanitizer still holds the earlier access when the later one executes is
+	// not (its shadow cells keep four accesses per word and evict at random), so a race finding
+	// gets a few attempts - a finding that never reproduces is reported as machinery trouble.
+	attempts := 2
+	if c.v.Oracle == "race" {
+		attempts = 6
+	}
+	ok := false
+	for i := 0; i < attempts && !ok; i++ {
 		sh.budget++
-		if !sh.test(tape) {
-			return "", nil, fmt.Errorf("tape of run %d does not reproduce (oracle=%s key=%s)", c.run, c.v.Oracle, c.v.Key)
-		}
+		ok = sh.test(tape)
+	}
+	if !ok {
+		return "", nil, fmt.Errorf("tape of run %d does not reproduce (oracle=%s key=%s); the replay showed: %s", c.run, c.v.Oracle, c.v.Key, sh.lastSeen)
 	}
 	origLen := len(sh.best)
 	sh.run()
@@ -584,11 +621,16 @@ func (r *runner) confirmAndMinimise(c *candidate, tier string) (string, *replayF
 		return "", nil, err
 	}
 	defer w2.stop()
-	vs, res, err := r.evalTape(w2, sh.best, true)
-	if err != nil {
-		return "", nil, err
+	var v *sim.Violation
+	var res *sim.Result
+	for i := 0; i < attempts && v == nil; i++ {
+		vs, r2, err := r.evalTape(w2, sh.best, true)
+		if err != nil {
+			return "", nil, err
+		}
+		res = r2
+		v = hasViolation(vs, c.v.Oracle, c.v.Key)
 	}
-	v := hasViolation(vs, c.v.Oracle, c.v.Key)
 	if v == nil {
 		return "", nil, fmt.Errorf("minimised tape does not reproduce in a fresh process")
 	}
@@ -674,6 +716,13 @@ func cmdReplay(args []string) int {
 	vs, res, err := r.evalTape(w, rep.Tape, true)
 	if err != nil {
 		fatal2("%v", err)
+	}
+	for i := 0; i < 5 && rep.Oracle == "race" && hasViolation(vs, rep.Oracle, rep.Key) == nil; i++ {
+		// race reports depend on ThreadSanitizer still holding the earlier access: a few attempts
+		vs, res, err = r.evalTape(w, rep.Tape, true)
+		if err != nil {
+			fatal2("%v", err)
+		}
 	}
 	if res != nil {
 		fmt.Printf("case:\n%s\n", res.Sample)
